@@ -282,8 +282,10 @@ type verifPlExec struct {
 	live      *verifPlMachine
 	shadow    *verifPlMachine
 	last      []action
-	delivered map[string]uint64 // r.p.s.sender.value -> weight of votes delivered as verified
+	delivered map[string]uint64 // r.p.s.sender.value -> weight of the last such vote delivered as verified (kept for other harnesses)
+	deliveredW map[string]map[uint64]bool // r.p.s.sender.value -> all weights with which such a vote was delivered as verified
 	nEnsure   int
+	nBundle   int
 	nPersist  int
 	idxMap    map[uint64]uint64 // TaskIndex handed out by the live machine -> the one the shadow handed out for the same votePresent
 }
@@ -684,7 +686,18 @@ func verifPlParseEqs(s string) (out [][4]uint64) {
 }
 
 func (x *verifPlExec) record(r, p, s, sender, value, weight uint64) {
-	x.delivered[fmt.Sprintf("%d.%d.%d.%d.%d", r, p, s, sender, value)] = weight
+	k := fmt.Sprintf("%d.%d.%d.%d.%d", r, p, s, sender, value)
+	if x.delivered == nil {
+		x.delivered = map[string]uint64{}
+	}
+	x.delivered[k] = weight
+	if x.deliveredW == nil {
+		x.deliveredW = map[string]map[uint64]bool{}
+	}
+	if x.deliveredW[k] == nil {
+		x.deliveredW[k] = map[uint64]bool{}
+	}
+	x.deliveredW[k][weight] = true
 }
 
 // event of an op line (nil: not an event op)
@@ -805,6 +818,55 @@ func verifPlTaskIndex(as []action) (uint64, bool) {
 	return 0, false
 }
 
+// Structural monitor on a REAL bundle the router emits (Bundle.verify / Certificate.Authenticate semantics, signatures aside):
+// not a propose-step bundle, pairwise distinct senders over votes and equivocation pairs, every vote one that was delivered as
+// verified for (round, period, step, value) with the weight its credential carries, every equivocation pair two delivered votes of
+// one sender for different values, Σ weight of the DISTINCT senders reaches the step's threshold, size bounds.
+func (x *verifPlExec) bundleCheck(c unauthenticatedBundle) string {
+	if c.Step == propose {
+		return "BAD:propose-step"
+	}
+	seen := map[basics.Address]bool{}
+	var weight uint64
+	val := x.y.valueID(c.Proposal)
+	key := func(sender basics.Address, v string) string {
+		return fmt.Sprintf("%d.%d.%d.%s.%s", c.Round, c.Period, c.Step, verifPlAddrID(sender), v)
+	}
+	for _, v := range c.Votes {
+		if seen[v.Sender] {
+			return "BAD:dup-sender"
+		}
+		seen[v.Sender] = true
+		w, err := strconv.ParseUint(verifPlCredWeight(v.Sender, v.Cred), 10, 64)
+		if err != nil || !x.deliveredW[key(v.Sender, val)][w] {
+			return "BAD:vote-not-delivered"
+		}
+		weight += w
+	}
+	for _, v := range c.EquivocationVotes {
+		if seen[v.Sender] {
+			return "BAD:dup-sender"
+		}
+		seen[v.Sender] = true
+		if v.Proposals[0] == v.Proposals[1] {
+			return "BAD:eq-same"
+		}
+		w, err := strconv.ParseUint(verifPlCredWeight(v.Sender, v.Cred), 10, 64)
+		if err != nil || !x.deliveredW[key(v.Sender, x.y.valueID(v.Proposals[0]))][w] || len(x.deliveredW[key(v.Sender, x.y.valueID(v.Proposals[1]))]) == 0 {
+			return "BAD:eqvote-not-delivered"
+		}
+		weight += w
+	}
+	if !c.Step.reachesQuorum(config.Consensus[x.cv], weight) {
+		return "BAD:weight"
+	}
+	thr := int(c.Step.threshold(config.Consensus[x.cv]))
+	if len(c.Votes) > thr || len(c.EquivocationVotes) > thr || len(c.Votes)+len(c.EquivocationVotes) > thr {
+		return "BAD:size"
+	}
+	return "ok"
+}
+
 // C03 monitor on the REAL ensure action: the structural conditions of Certificate.Authenticate
 func (x *verifPlExec) c03(a ensureAction) string {
 	c := a.Certificate
@@ -821,46 +883,7 @@ func (x *verifPlExec) c03(a ensureAction) string {
 	if c.Proposal != a.Payload.value() {
 		return "BAD:value"
 	}
-	seen := map[basics.Address]bool{}
-	var weight uint64
-	val := x.y.valueID(c.Proposal)
-	for _, v := range c.Votes {
-		if seen[v.Sender] {
-			return "BAD:dup-sender"
-		}
-		seen[v.Sender] = true
-		w, ok := x.delivered[fmt.Sprintf("%d.%d.%d.%s.%s", c.Round, c.Period, c.Step, verifPlAddrID(v.Sender), val)]
-		if !ok || strconv.FormatUint(w, 10) != verifPlCredWeight(v.Sender, v.Cred) || w == 0 {
-			return "BAD:vote-not-delivered"
-		}
-		weight += w
-	}
-	for _, v := range c.EquivocationVotes {
-		if seen[v.Sender] {
-			return "BAD:dup-sender"
-		}
-		seen[v.Sender] = true
-		if v.Proposals[0] == v.Proposals[1] {
-			return "BAD:eq-same"
-		}
-		for i := 0; i < 2; i++ {
-			w, ok := x.delivered[fmt.Sprintf("%d.%d.%d.%s.%s", c.Round, c.Period, c.Step, verifPlAddrID(v.Sender), x.y.valueID(v.Proposals[i]))]
-			if !ok || strconv.FormatUint(w, 10) != verifPlCredWeight(v.Sender, v.Cred) || w == 0 {
-				return "BAD:eqvote-not-delivered"
-			}
-			if i == 0 {
-				weight += w
-			}
-		}
-	}
-	if !cert.reachesQuorum(config.Consensus[x.cv], weight) {
-		return "BAD:weight"
-	}
-	thr := int(cert.threshold(config.Consensus[x.cv]))
-	if len(c.Votes) > thr || len(c.EquivocationVotes) > thr || len(c.Votes)+len(c.EquivocationVotes) > thr {
-		return "BAD:size"
-	}
-	return "ok"
+	return x.bundleCheck(unauthenticatedBundle(c))
 }
 
 func (x *verifPlExec) exec(op string) string {
@@ -880,6 +903,7 @@ func (x *verifPlExec) exec(op string) string {
 		x.shadow = nil
 		x.last = nil
 		x.delivered = map[string]uint64{}
+		x.deliveredW = map[string]map[uint64]bool{}
 		return "ok"
 	case "dump":
 		if x.live == nil {
@@ -947,6 +971,25 @@ func (x *verifPlExec) exec(op string) string {
 		if ea, ok := a.(ensureAction); ok {
 			x.nEnsure++
 			res += " ## c03=" + x.c03(ea)
+		}
+	}
+	// every other bundle the player emits (relayed / re-broadcast bundles, the certificate of a stageDigest): printed only when bad
+	for _, a := range as {
+		var b *unauthenticatedBundle
+		switch t := a.(type) {
+		case networkAction:
+			if (t.T == relay || t.T == broadcast) && t.Tag == protocol.VoteBundleTag {
+				b = &t.UnauthenticatedBundle
+			}
+		case stageDigestAction:
+			ub := unauthenticatedBundle(t.Certificate)
+			b = &ub
+		}
+		if b != nil {
+			x.nBundle++
+			if v := x.bundleCheck(*b); v != "ok" {
+				res += " ## bundle=" + v
+			}
 		}
 	}
 	return res
@@ -1332,6 +1375,160 @@ func (g *verifPlGen) oneCase(malformed bool, maxEvents int) {
 	}
 }
 
+// Directed stream: quorums that only form through EQUIVOCATORS.  In one (round, period, step) a set D of senders votes the value w,
+// 1–3 further senders vote twice (for w first and then another value, or for two other values) so that they count for every value
+// through EquivocatorsCount, and the step's threshold T is set so that D alone does not reach it:
+//   Σw(D) + Σw(e_1..e_{k-1}) < T ≤ Σw(D) + Σw(e_1..e_k)      (e_1.. in genBundle's packing order: heavier first, then larger address)
+// The bundle the tracker generates at the crossing must then contain every equivocation pair and none of the equivocators among the
+// plain votes.  `canonical`: cert step, two equivocators, X = e_1 votes w first, arrival order X→w, D→w, X→u, Y→a, Y→b (the crossing is
+// Y's second vote); otherwise step, number of equivocators, first values and the order of arrival are random.
+func (g *verifPlGen) equivCase(canonical bool) {
+	rg := g.rng
+	n := 5 + rg.Intn(3)
+	k := 2
+	if !canonical {
+		k = 1 + rg.Intn(3)
+	}
+	scale := []uint64{1, 1, 10, 1000}[rg.Intn(4)]
+	g.w = make([]uint64, n)
+	g.total = 0
+	for i := range g.w {
+		g.w[i] = uint64(1+rg.Intn(4)) * scale
+		g.total += g.w[i]
+	}
+	// equivocators: k random senders, in genBundle's packing order
+	eq := g.perm()[:k]
+	sort.Slice(eq, func(i, j int) bool {
+		if g.w[eq[i]] != g.w[eq[j]] {
+			return g.w[eq[i]] > g.w[eq[j]]
+		}
+		return eq[i] > eq[j]
+	})
+	isEq := map[int]bool{}
+	var sumEq, sumEqButLast uint64
+	for i, e := range eq {
+		isEq[e] = true
+		sumEq += g.w[e]
+		if i < k-1 {
+			sumEqButLast += g.w[e]
+		}
+	}
+	var D []int
+	var sumD uint64
+	for i := range g.w {
+		if !isEq[i] && (len(D) < 2 || rg.Chance(85)) {
+			D = append(D, i)
+			sumD += g.w[i]
+		}
+	}
+	last := g.w[eq[k-1]]
+	T := sumD + sumEqButLast + 1 + uint64(rg.Intn(int(last)))
+	if T <= sumEq { // would trip "too many equivocators": leave the shape to the random stream
+		T = sumEq + 1
+	}
+	frac := func(pct uint64) uint64 { return (g.total*pct + 99) / 100 }
+	g.q = verifPlParams{frac(68), frac(70), frac(72), frac(30), frac(66), frac(74), rg.Chance(70)}
+	s := uint64(2)
+	if !canonical {
+		s = []uint64{2, 2, 2, 1, 3, 4}[rg.Intn(6)]
+	}
+	switch s {
+	case 1:
+		g.q.softT = T
+	case 2:
+		g.q.certT = T
+	default:
+		g.q.nextT = T
+	}
+	g.hist = nil
+	g.nextK = map[uint64]uint64{}
+	g.props = map[[2]uint64][]uint64{}
+	g.known = map[uint64][]uint64{}
+	g.qval = map[[3]uint64]uint64{}
+	g.emit(verifPlResetLine(g.q, uint64(1+rg.Intn(30)), 0, 1))
+	for it := 0; it < 3 && g.alive(); it++ {
+		pl := g.x.live.plyr
+		R, P := uint64(pl.Round), uint64(pl.Period)
+		if R > 88 {
+			break
+		}
+		w := g.newValue(R, P)
+		var lines []string
+		lines = append(lines, fmt.Sprintf("pv 1 0 %d %d %d %d %d 0 -", n+1, R, P, w, rg.Intn(5)))
+		lines = append(lines, g.payloadVerified(w))
+		vote := func(i int, v uint64) string {
+			return fmt.Sprintf("v 1 0 %d %d %d %d %d %d", R, P, s, i+1, g.w[i], v)
+		}
+		other := func(not ...uint64) uint64 {
+			for {
+				v := g.newValue(R, P)
+				ok := v != w
+				for _, x := range not {
+					ok = ok && v != x
+				}
+				if ok {
+					return v
+				}
+			}
+		}
+		var votes [][]string // per sender, in its own order
+		for j, e := range eq {
+			var first, second uint64
+			if (canonical && j == 0) || (!canonical && rg.Chance(60)) {
+				first = w
+				second = other(w)
+			} else {
+				first = other()
+				second = other(first)
+				if !canonical && rg.Chance(30) {
+					second = w
+				}
+			}
+			if first == second {
+				second = other(first)
+			}
+			votes = append(votes, []string{vote(e, first), vote(e, second)})
+		}
+		if canonical {
+			lines = append(lines, votes[0][0])
+			for _, d := range D {
+				lines = append(lines, vote(d, w))
+			}
+			lines = append(lines, votes[0][1], votes[1][0], votes[1][1])
+		} else {
+			for _, d := range D {
+				votes = append(votes, []string{vote(d, w)})
+			}
+			for len(votes) > 0 { // random interleaving that keeps every sender's own order
+				i := rg.Intn(len(votes))
+				lines = append(lines, votes[i][0])
+				if votes[i] = votes[i][1:]; len(votes[i]) == 0 {
+					votes = append(votes[:i], votes[i+1:]...)
+				}
+			}
+		}
+		g.run(lines)
+		if !g.alive() {
+			break
+		}
+		g.emit("dump")
+		if rg.Chance(50) {
+			g.persist()
+		}
+		// leave the (round, period) if the schedule itself did not: a timeout, then an ordinary cert quorum for w
+		if pl2 := g.x.live.plyr; uint64(pl2.Round) == R && uint64(pl2.Period) == P {
+			g.run([]string{fmt.Sprintf("t %d", rg.U64())})
+			if s != 2 && g.alive() {
+				g.run(g.quorumLines(R, P, 2, w, 0))
+			}
+		}
+	}
+	if g.alive() {
+		g.emit("dump")
+		g.persist()
+	}
+}
+
 // persist the current state with the action list of the last event — except when that list holds a stageDigest action:
 // decode's zeroAction has no case for it (it panics "bad action type: stageDigest"); the service never writes such a list
 // (it persists only lists containing an attest, and no handle call emits both), so the op then passes no actions.
@@ -1572,11 +1769,18 @@ func TestVerifPlayer(t *testing.T) {
 	g := &verifPlGen{rng: vh.NewRng(vh.Seed()), x: x, out: out}
 	budget := vh.Budget(12000, 400000)
 	malformedBudget := budget / 6
-	for g.n < budget-malformedBudget {
+	// directed: quorums through equivocators (two canonical cases, then variants), again after every 10th generated case
+	for i := 0; i < 6; i++ {
+		g.equivCase(i < 2)
+	}
+	for c := 1; g.n < budget-malformedBudget; c++ {
 		g.oneCase(false, 60+g.rng.Intn(140))
+		if c%10 == 0 {
+			g.equivCase(false)
+		}
 	}
 	for g.n < budget {
 		g.oneCase(true, 40+g.rng.Intn(80))
 	}
-	t.Logf("player: %d events, %d ensure actions, %d persists", g.n, x.nEnsure, x.nPersist)
+	t.Logf("player: %d events, %d ensure actions, %d other bundles checked, %d persists", g.n, x.nEnsure, x.nBundle, x.nPersist)
 }
